@@ -2,7 +2,7 @@
 interpreter's resize_memory helper and the resize_memory! macro (four configurations)."""
 import vf
 
-READY = False
+READY = True
 SERVES = {
     "C11": dict(
         technique="TLA+ spec Memory.tla (a stack of per-frame byte sequences) model-checked by TLC; every (state, operation) edge of the model replayed on the real SharedMemory / Interpreter and the projected memories compared (spec->impl conformance)",
@@ -47,11 +47,11 @@ def configs(quick):
     # word-aligned expansion and its price (needs > 22 words for the quadratic term to show)
     c["mem_expand"] = dict(BASE, Ops=vf.tla_set('"%s"' % o for o in [
                                "new_context", "free_context", "gas", "expand", "resize_memory", "set_byte"]),
-                           Bytes="{9}", Sizes="{1, 33, 736, 737}" if q else "{1, 32, 33, 736, 737, 1441, 2049}",
-                           Offsets=("{0, 31, 32, 703, 1470, 200000, %d, %d}" if q else "{0, 1, 31, 32, 64, 703, 1470, 200000, %d, %d}") % (TOP - 1, TOP),
-                           Lens="{1, 32, 33}" if q else "{1, 2, 32, 33}",
-                           GasLimits="{2, 3, 70, 10000}" if q else "{0, 2, 3, 5, 6, 69, 70, 72, 73, 141, 142, 10000}",
-                           MaxDepth=1 if q else 2, Top=TOP, MaxHist=4 if q else 5)
+                           Bytes="{9}", Sizes="{1, 33, 737}" if q else "{1, 32, 33, 736, 737, 1441}",
+                           Offsets=("{0, 31, 32, 703, 200000, %d, %d}" if q else "{0, 1, 31, 32, 64, 703, 1470, 200000, %d, %d}") % (TOP - 1, TOP),
+                           Lens="{1, 32, 33}",
+                           GasLimits="{2, 3, 70, 10000}" if q else "{0, 2, 3, 5, 6, 69, 70, 72, 73, 10000}",
+                           MaxDepth=1 if q else 2, Top=TOP, MaxHist=4)
     return c
 
 
@@ -61,7 +61,7 @@ def run(ctx, pid):
                 "configurations (contexts / byte operations / word operations / metered expansion); distinct = distinct edges")
     binary = vf.cargo_build("memory")
     for name, consts in configs(ctx.quick).items():
-        run_ = vf.tlc(ctx, "Memory", vf.cfg(consts, invariants=INV, properties=PROPS), name=name, workers=6, timeout=900)
+        run_ = vf.tlc(ctx, "Memory", vf.cfg(consts, invariants=INV, properties=PROPS), name=name, workers=4, timeout=900)
         ops = [o.strip().strip('"') for o in consts["Ops"].strip("{}").split(",")]
         vf.replay_edges(ctx, res, run_, "memory", ["top=%d" % consts["Top"]], name=name, binary=binary, expect_ops=ops)
     res.exhaustive = True
